@@ -1,13 +1,15 @@
 (* rep driver (C11): one case per line, space-separated tokens.
-   repair <fix> <S0 | S n {key fd}> O n {text int|x float:fin:zero|x} D n {node}        (float = repr, fin = isfinite, zero = (x == 0))
+   repair <fix> <S0 | S n {key fd}> O n {text int|x float:fin:zero|x} G n {char value} D n {node}
+     O = int()/float() oracle (float = repr, fin = isfinite, zero = (x == 0)); G = digit oracle: non-ASCII code point -> int(ch)
+     for every ch with ch.isdecimal() occurring in the case (absent = not a decimal digit)
      fd     := p | c | F n {constr}        constr := E n {str} | T str | X
      node   := A key value | B key tgt|~ n {node} | S id key ann|~ n {node} | C text
      value  := z | b0 | b1 | i<dec> | f<enc> | s<enc> | L n {value} | M n {key value} | Z content tag|~ fence | H raw
    strings are '.'-separated code points, "-" is empty, "~" is None.
    answer: D n {node} # rule|before|after|tier;...
    other commands: lower s | strip s | useint s | enumeval n {str} s | zdec i<dec> | simple S.. | settled S.. D..
-     mant s      -> <nonzero_mantissa s as 0/1> <mantissa s>          (the underflow guard's text test)
-     tblok O ..  -> <tbl_float_consistent> <tbl_int_zero_ok>          (hypotheses of C11_repair_tbl_lossless_text on a real table) *)
+     mant G .. s      -> <nonzero_mantissa s as 0/1> <mantissa s>          (the underflow guard's text test)
+     tblok O .. G ..  -> <tbl_float_consistent> <tbl_int_zero_ok>          (hypotheses of C11_repair_tbl_lossless_text on real tables) *)
 exception Bad of string
 let toks : string list ref = ref []
 let next () = match !toks with [] -> raise (Bad "eof") | t :: r -> toks := r; t
@@ -68,6 +70,10 @@ let oracle () =
               | [r; fin; zero] -> Some ((str_of_tok r, fin = "1"), zero = "1")
               | _ -> raise (Bad "float"))) in
       (k, (i, f)))
+let digits () =
+  (match next () with "G" -> () | t -> raise (Bad ("digits " ^ t)));
+  let n = count () in
+  many n (fun () -> let c = n_of_int (count ()) in let v = n_of_int (count ()) in (c, v))
 let doc () : node list =
   (match next () with "D" -> () | t -> raise (Bad ("doc " ^ t)));
   let n = count () in many n node
@@ -99,8 +105,9 @@ let handle l =
       let fx = tok_bool (next ()) in
       let s = schema () in
       let o = oracle () in
+      let g = digits () in
       let d = doc () in
-      let (d', lg) = repair_tbl o fx s d in
+      let (d', lg) = repair_tbl o g fx s d in
       pdoc d' ^ " # " ^ String.concat ";" (List.map pe lg)
     | "lower" -> tok_of_str (lower (str ()))
     | "strip" -> tok_of_str (strip (str ()))
@@ -111,9 +118,9 @@ let handle l =
     | "settled" -> (match schema () with
         | Some s -> let d = doc () in bool_tok (List.for_all (settled_n s) d)
         | None -> "1")
-    | "mant" -> let s = str () in bool_tok (nonzero_mantissa s) ^ " " ^ tok_of_str (mantissa s)
-    | "tblok" -> let o = oracle () in bool_tok (tbl_float_consistent o) ^ " " ^ bool_tok (tbl_int_zero_ok o)
-    | "lossy0" -> let b = str () in let a = str () in bool_tok (zero_text a && nonzero_mantissa (strip b))
+    | "mant" -> let g = digits () in let s = str () in bool_tok (nonzero_mantissa (dig_find g) s) ^ " " ^ tok_of_str (mantissa s)
+    | "tblok" -> let o = oracle () in let g = digits () in bool_tok (tbl_float_consistent o) ^ " " ^ bool_tok (tbl_int_zero_ok o g)
+    | "lossy0" -> let g = digits () in let b = str () in let a = str () in bool_tok (zero_text a && nonzero_mantissa (dig_find g) (strip b))
     | _ -> "!badcmd"
   with Bad m -> "!bad:" ^ m
 let () = main_loop handle
